@@ -24,6 +24,10 @@ CHECKS = {
    technique="stateless model checking over hash-map iteration orders (ChoiceMap hook: every iteration is a choice point, all tapes with <= 2 deviations enumerated) and over prior in-process compilations (all ordered pairs / triples); byte comparison of the YAML",
    text="Iteration order of the compiler's hash maps is owned by the explorer through the ChoiceMap hook: for every corpus program the real pipeline is re-executed under every order of every hash-map iteration it performs (all n! orders up to 4 entries, <= 2 deviations) and after every ordered pair (thorough: triple) of other programs compiled before it in the same process; the YAML must be byte-identical. On the present tree the compile path meets zero choice points, i.e. no hash-ordered iteration can reach the output at all. A free-running run of the real oal-cli in 6 fresh processes per program is reported as confirmation only.",
    note="Only maps imported through the cfg-switched `use … HashMap` lines are controlled; time, threads and environment are not inputs of the compile path (it is single-threaded and reads no clock). The multi-process confirmation is sampling of hash seeds and is labelled as such."),
+ "C07": dict(engine="unifspace", design="§4 C07",
+   technique="exhaustive enumeration of tag-equation systems (<= 3 equations over a bounded term universe, all orders x orientations) fed to the real unifier through hook H1 and compared with a Robinson reference unifier; exhaustive statement permutations x renamings of whole programs compared with a reference kind checker",
+   text="(1) Every system of up to 3 equations over the stated term universes (quick 5.4 M systems, 56 M unify runs) is pushed into the real InferenceSet in all E! orders and 2^E orientations: unify must terminate (watchdog / abort attribution), succeed exactly when a textbook Robinson unifier with a complete occurs check finds a solution, report InvalidType otherwise, and reduce() of every variable must equal the most general unifier up to renaming, identically over all orders. (2) Every program of the kind-agnostic space and of the scoping / recursion fragments is compiled under all permutations of its statements and two consistent renamings of all identifiers: accept/reject and the error kind must not change and must equal the verdict of the reference kind checker.",
+   note="Term universes are bounded by depth and node count (stated per bound in the evidence); symmetry-reduced bounds explore one system per orbit of variable renamings. The reference kind checker models single-module programs."),
  "C08": dict(engine="progspace", design="§4 C08",
    technique="bounded-exhaustive enumeration of programs over colliding name pools (declarations, parameters, rec binders, qualified/unqualified imports); binding table of the real syntax trees compared with a reference lexical resolver; emitted document compared with a lexically scoped reference evaluator",
    text="For every program with <= 2 (thorough 3) declarations over the name pools {a,b,x,f,g,m} (300 k programs quick) the `definition()` recorded on every variable node of the real trees must be exactly the binder the reference resolver names (innermost rec binder, parameter, declaration regardless of order, import by qualifier, built-in), programs with an unbound use or a duplicate declaration must be rejected with NotInScope / InvalidIdentifier, and the document must equal the reference evaluator's, which is lexically scoped - so a binding leaking from a caller (the implementation uses a dynamic scope stack) shows as a different document.",
@@ -32,10 +36,34 @@ CHECKS = {
    technique="bounded-exhaustive enumeration of declaration graphs (all assignments of 30/44 body forms to 2/3 declarations) and rec expressions; verdict compared with a reference kind + cycle rule, documents compared with the reference graph by bisimulation",
    text="All declaration graphs on <= 3 declarations over every body form (object, array, alias, alternative, wrapper function, identity function, content), rec expressions nested / shadowing / inside functions applied with equal and different arguments, and recursion in imported modules: accept/reject must equal the independent rule 'the graph restricted to declarations that are not schemas is acyclic' (with kinds solved by a reference unifier); every accepted program must compile in finite time (watchdog) to a document whose $ref graph is closed, in which no component is a bare $ref chain to itself, and whose unfolding is bisimilar to the reference graph with no implicit component left over - two instantiations with different arguments can therefore never share a component.",
    note="Reference kind checker covers single-module programs. Two genuine defects are listed as known findings (D16 orphan duplicate component, D17 unguarded alias cycle through a function)."),
+ "C10": dict(engine="modgraph", design="§4 C10",
+   technique="exhaustive enumeration of all import graphs on <= N modules x use orders x spellings x duplicate / missing imports, through the real module::load with a recording in-memory loader whose parse / compile are the real ones; call trace compared with a plain graph-algorithm model",
+   text="All directed graphs on up to 3 (thorough 4) modules, self loops included, with every order of the use statements, relative spellings of the same file, duplicate imports and missing targets are loaded by the real loader: the result class must be the one the graph model predicts (missing import reported as that import, cycle -> CycleDetected, otherwise success), every reachable module is loaded, parsed and compiled exactly once and nothing else is, each module is compiled after everything it imports, and result class and emitted document are invariant under use order and spelling.",
+   note="The loader's collaborators (parse, compile) are the real functions; only file access is in memory. When both a missing import and a cycle are reachable either error class is accepted, as the property does not order them."),
+ "C13": dict(engine="frontends", design="§4 C13",
+   technique="exhaustive program x configuration matrix through the real oal-cli, oal_wasm::compile and the real oal-lsp; exit status, target file bytes, stderr and published diagnostics compared with a class table",
+   text="For every failure phase (lexical, syntax, missing import, import cycle, unbound name, duplicate, kind mismatch, infinite type, bad recursion, invalid status, invalid annotation) and for success, every program of a hand-verified class table in every embedding (main, imported module, CRLF, multi-byte, diamond...) is run through the real CLI in every configuration (options / --conf / conf overridden, base none / valid / not YAML / not OpenAPI / missing, target absent / sentinel): exit 0 exactly when the complete document was written and equals the in-process Builder's; on failure exit 1, target byte-identical, stderr names the module and position; CLI success <=> playground success with the same document; the language server publishes >= 1 diagnostic exactly when the CLI fails.",
+   note="Programs are a finite hand-written matrix, not a generated space; the expected class of each is verified in-process first (phase 1). Configuration errors only require exit 1, untouched target and a message."),
+ "C14": dict(engine="frontends", design="§4 C14",
+   technique="exhaustive enumeration of the feature lattice of base documents (3*2^17 bases x programs) through the real Builder::with_base in-process and a 2^k sub-lattice through the real oal-cli --base; output compared with the round-tripped base outside paths and components.schemas",
+   text="Every base document of the 17-feature lattice (info members, servers in three shapes, security, tags, externalDocs, root extension, pre-existing paths, all eight components.* members; 393 216 bases), combined with up to six accepted programs, is merged by the real builder: outside `paths` and `components.schemas` the output must equal the base as parsed and printed by the same openapiv3 types, paths and schema components must equal those of the base-less output, and no top-level or components.* key of the raw base may disappear; a sub-lattice is repeated through the real CLI.",
+   note="An added empty `components: {}` is normalised away. The quick tier may hit its wall-clock cap on a loaded machine; the evidence then reports the number of bases completed and exhaustive:false."),
+ "C15": dict(engine="lsp-histories", design="§4 C15",
+   technique="two explicit-state searches: (a) the complete edit-transition relation of Workspace::change over all texts <= n symbols x all ranges x replacements, against a client-side buffer model (hook H3); (b) all notification histories of depth <= d over a two-file workspace on the real oal-lsp, each compared with a fresh server given the final texts",
+   text="(a) From every text of up to 4 (thorough 6) symbols over {a, é, €, 😉, LF, CRLF} every didChange with every range (including past end of line / text) and replacement, and two-change batches, is applied by the real Workspace and compared with the client buffer model - every transition of the edit relation is checked, so no history over such texts can make the server's copy drift. (b) Every history of up to 3 (thorough 4-5) notifications (open, full and incremental changes that create and repair errors, close) over {main.oal, m.oal} and three disk states, under every placement of intermediate requests, is replayed on the real server; published diagnostics and the answers to definition / references / prepareRename / rename at every identifier must equal those of a fresh server handed the final texts, and the server must stay alive.",
+   note="The idle refresh timer is explored as an explicit event in the thorough tier; histories slower than 0.8 s are re-run. Positions inside a surrogate pair are outside the property. Never-published and published-empty diagnostics are equivalent."),
  "C16": dict(engine="textspace", design="§4 C16",
    technique="explicit-state exhaustive enumeration of all texts <= n symbols x all offsets/positions/spans through the real conversion functions, compared with a line-table reference model",
    text="Every text of up to 6 (quick) / 8 (thorough) symbols over {a, é, €, 😉, LF, CRLF} is a state; every byte offset, every (line, character) position including out-of-range ones and every span is converted by the real position_to_utf8 / utf8_to_position / utf8_range_to_position / CharSpan::from and compared with an independent line-table model. The space is enumerated completely, so the verdict is 'no text of that size has a wrong conversion', which example tests cannot give.",
    note="Trusts the line-table reference (40 lines) and rustc. Offsets between CR and LF and positions inside a surrogate pair are only required not to panic and to stay in range. Lone CR is outside the alphabet."),
+ "C17": dict(engine="lsp-sweep", design="§4 C17",
+   technique="exhaustive cursor sweep: definition and references requested at every UTF-16 position of every file of every accepted program of the name-collision space on the real oal-lsp, compared with the reference resolver's binding relation",
+   text="For every accepted program of the module / scoping fragments and of the C08 name-collision space, in two layouts (plain; multi-byte comment prefix + CRLF), the real language server is asked for definition and references at every cursor position: on a use the definition must lie in the binder's file, contain the binder identifier and lie within the binding construct; at non-identifier positions the answers must be empty; references on a declaration or on any of its uses must be exactly the uses bound to it across modules.",
+   note="Positions at the end of an identifier, on qualifiers, parameters and rec binders themselves are not fixed by the property and not checked."),
+ "C18": dict(engine="lsp-sweep", design="§4 C18",
+   technique="exhaustive cursor sweep: prepareRename at every position, rename wherever it answers; edits compared with the reference resolver's occurrence set and applied client-side, the edited sources recompiled and their document compared with the original",
+   text="For the same programs and layouts, wherever prepareRename offers a range, rename to a fresh name must leave the server alive and return pairwise disjoint edits that each replace one occurrence of the old name, exactly the binder plus all and only its uses (import qualifiers: the qualifier and its qualified uses); the edited sources must be accepted and compile to the original document (for an @reference with that component renamed).",
+   note="The edited sources are compiled in-process by the library code the CLI runs."),
 }
 
 NOT_YET = {
